@@ -88,6 +88,14 @@ pub fn component(rng: &mut Rng) -> String {
     let marker = rng.pick_str(&["@", "@", "@", "#", "~"]);
     let mut s = String::from(marker);
     s.push_str(&modifiers(rng));
+    // recipe references: names that are only a relative prefix, empty path components, a path whose last component starts
+    // with a multi-byte character, blanks between the name and the brace (the reference check labels parts of the name)
+    if rng.chance(1, 25) {
+        let m = rng.pick_str(&["@", "@@", "@@", "#"]);
+        let n = rng.pick_str(&["./", "../", ".//", "./ ", ".\\", "./a//b", "../ /", "./desserts/éclair", "../a/b/ñame", "./x/日本", "./é", "./a/", "./stock"]);
+        let sp = rng.pick_str(&["", "", " ", "\u{00A0}"]);
+        return format!("{m}{n}{sp}{{{}}}", if rng.chance(1, 2) { quantity(rng) } else { String::new() });
+    }
     match rng.below(8) {
         0 => s.push_str(&word(rng)),                                  // single word
         1 => { s.push_str(&name(rng)); s.push_str("{}"); }
@@ -232,12 +240,16 @@ pub fn fm_scenario(rng: &mut Rng) -> String {
         "title: Tarta de queso", "author: Ana", "cuisine: café", "descripción: rápido y fácil", "porción: grande", "größe: groß",
         "tags: [dulce, fácil]", "servings: [muchas]", "servings: muchas", "servings: 4", "time: pronto", "time: 1h", "prep time: 5 min",
         "cook time: é", "cook time: 10 min", "locale: español", "source: {name: Ñandú, url: x}", "author: <ñ>", "nota: añadir sal — ¡ya!",
-        "nutrition:\n  servings: dos\n  porción: x", "extra:\n  time: mañana\n  título: y", "título: Crème brûlée", "日本: 料理", "yield: número",
+        "nutrition:\n  servings: dos\n  porción: x", "extra:\n  time: mañana\n  título: y", "título: Crème brûlée", "日本: 料理", "yield: número", "duration: soon", "time required: later", "serves: a crowd", "tag: [x]", "tags: 7", "prep_time: nunca", "cook_time: 10 min", "introduction: hola", "source.url: x", "time.prep: 5 min",
     ];
     let n = 2 + rng.below(7);
     let indent = if rng.chance(1, 4) { "  " } else { "" };
     let mut s = String::new();
     if rng.chance(1, 6) { s.push('\n'); }
+    // valid YAML that is not a mapping, empty documents
+    if rng.chance(1, 10) {
+        return format!("---\n{}\n---\n{}", rng.pick_str(&["- a", "[a, b]", "title Bread", "42", "~", "", "# only a comment", "- title: x\n- time: 1h", "\"quoted\"", "true"]), rng.pick_str(&["step\n", "Mezclar @azúcar{1%kg}.\n", ""]));
+    }
     s.push_str("---\n");
     for _ in 0..n {
         let e = rng.pick_str(ENTRIES);
